@@ -28,6 +28,7 @@ def run(ctx):
     base_rules.run_link_rules(ctx, "C18.R1", funcs, externals=True, closed_world=True)
     plots.c18_rules(ctx)
     plots.c18_structure_rules(ctx)
+    plots.c18_selection_rules(ctx)
 
     def sources(fi):
         # self.ds is derived from the caller's dataset by drop_vars / sel / dropna: new Dataset objects whose variables may still
